@@ -46,6 +46,7 @@ type inner struct {
 	ETag     string   `json:"etag"` // none|strong|weak
 	Ops      []string `json:"ops"`  // wS (5 bytes) wL (100 bytes) wX (70000 bytes) w0 f
 	Sibs     []string `json:"sibs"` // static: which of gz br zst exist next to the file
+	Hidden   bool     `json:"hidden,omitempty"` // static: the file is on the site's hide list (it is the site's Casketfile)
 }
 
 type model struct {
@@ -67,6 +68,9 @@ func (c gcfg) String() string {
 }
 
 func (in inner) String() string {
+	if in.Kind == "static" && in.Hidden {
+		return "hidden-static[" + strings.Join(in.Sibs, "+") + "]"
+	}
 	if in.Kind == "static" {
 		return "static[" + strings.Join(in.Sibs, "+") + "]"
 	}
@@ -143,6 +147,12 @@ func makeRoot(dir string) error {
 			os.WriteFile(base+".zst", []byte("ZSTD-STREAM-OF:"+fileContent), 0o644)
 		}
 	}
+	// hid.txt is handed to casket as the path of the Casketfile: it is on every site's hide list
+	base := filepath.Join(dir, "hid.txt")
+	os.WriteFile(base, []byte(fileContent), 0o644)
+	os.WriteFile(base+".gz", gz([]byte(fileContent)), 0o644)
+	os.WriteFile(base+".br", []byte("BROTLI-STREAM-OF:"+fileContent), 0o644)
+	os.WriteFile(base+".zst", []byte("ZSTD-STREAM-OF:"+fileContent), 0o644)
 	return nil
 }
 
@@ -184,7 +194,7 @@ func startFixture(c gcfg, root string) (*fixture, error) {
 	var err error
 	for try := 0; try < 4; try++ {
 		f := &fixture{p1: hx.StablePort(), p2: hx.StablePort()}
-		f.site, err = hx.StartHTTP(casketfile(c, root, f.p1, f.p2), "")
+		f.site, err = hx.StartHTTP(casketfile(c, root, f.p1, f.p2), filepath.Join(root, "hid.txt"))
 		if err == nil {
 			return f, nil
 		}
@@ -261,6 +271,8 @@ func probeScript(in inner) string {
 			ops = append(ops, "write:0")
 		case "f":
 			ops = append(ops, "flush")
+		case "h":
+			ops = append(ops, "status:"+strconv.Itoa(in.Status))
 		}
 	}
 	if len(ops) == 0 {
@@ -311,7 +323,9 @@ func (f *fixture) ask(gzipSite bool, c *gcase) obs {
 		hdr = append(hdr, "Accept-Encoding: "+c.AE)
 	}
 	path := c.Path
-	if c.Inner.Kind == "static" {
+	if c.Inner.Kind == "static" && c.Inner.Hidden {
+		path = "/hid.txt"
+	} else if c.Inner.Kind == "static" {
 		path = fmt.Sprintf("/s%d.txt", sibMask(c.Inner.Sibs))
 	} else {
 		hdr = append(hdr, "X-Probe: "+probeScript(c.Inner))
@@ -427,8 +441,15 @@ func judge(c *gcase, o0, o1 obs) (bad []string, compressed bool) {
 	if method == "" {
 		method = "GET"
 	}
+	if o0.Err != "" && c.Inner.Kind == "static" {
+		// the response of the static file server is casket's own: broken framing is a verdict
+		if o0.CL != "" {
+			return []string{"CLAbsentOrCorrect"}, false
+		}
+		return []string{"CENamesAppliedCodings"}, false
+	}
 	if o0.Err != "" {
-		return nil, false // the response without compression is itself broken: nothing to compare with
+		return nil, false // the scripted response without compression is itself broken: nothing to compare with
 	}
 	add := func(s string) {
 		for _, b := range bad {
